@@ -26,9 +26,8 @@ Theorem np_array_laws : np_laws np_array.
 Proof.
   constructor.
   - intros db s dt y l Hd W H. exact (np_array_ok dt s db y l Hd W H).
-  - intros W zs H. unfold np_array. destruct (np_flat_ints zs) as [sh ->]. cbn [bind snd]. apply mapM_conv_ints. exact H.
-  - intros dt zs l Hdt H. unfold np_array in H. destruct (np_flat_ints zs) as [sh E]. rewrite E in H. cbn [bind snd] in H.
-    apply mapM_conv_ints_inv; assumption.
+  - intros W zs H. rewrite np_array_pylist by apply pyatom_ints. apply mapM_conv_ints. exact H.
+  - intros dt zs l Hdt H. rewrite np_array_pylist in H by apply pyatom_ints. apply mapM_conv_ints_inv; assumption.
   - intros dt dt' zs [W Hdt]. cbn [np_array]. induction zs as [|z r IH]; [reflexivity|].
     cbn [map mapM]. rewrite IH. destruct Hdt as [->| ->]; reflexivity.
 Qed.
